@@ -5,6 +5,8 @@ import importlib, json, sys, warnings
 def main():
     pid, module, func, args, out = sys.argv[1:6]
     warnings.simplefilter("ignore")
+    import logging
+    logging.disable(logging.CRITICAL)
     from vlib.run import Run
     run = Run(pid, child=True)
     mod = importlib.import_module(module)
